@@ -149,6 +149,7 @@ type gtx struct {
 	parents []string
 	simple  bool // created with api=simple, not yet published
 	gone    bool
+	dead    bool // a possible child was confirmed without it: it must never show up again (chain consistency)
 }
 
 type gen struct {
@@ -280,6 +281,15 @@ func (g *gen) block(txs []string, cb bool) string {
 			t.h = g.tip + 1
 		}
 	}
+	for _, n := range txs {
+		if t := g.findTx(n); t != nil {
+			for _, pn := range t.parents {
+				if pt := g.findTx(pn); pt != nil && !pt.mined {
+					pt.dead = true
+				}
+			}
+		}
+	}
 	g.tip++
 	g.height = g.tip
 	g.add(op)
@@ -290,7 +300,7 @@ func (g *gen) mineSome(p float64, cb bool) {
 	var l []string
 	inc := map[string]bool{}
 	for _, t := range g.txs {
-		if t.mined || t.cb || t.gone || g.rng.Float64() > p {
+		if t.mined || t.cb || t.gone || t.dead || g.rng.Float64() > p {
 			continue
 		}
 		ok := true
@@ -492,8 +502,8 @@ func (g *gen) randomPublish() {
 	default:
 		return
 	}
-	if t.cb && !t.mined {
-		return // an unconfirmed coinbase is not a chain-consistent history
+	if (t.cb && !t.mined) || t.dead {
+		return // an unconfirmed coinbase / a parent reappearing after its child confirmed is not a chain-consistent history
 	}
 	cls := g.ans.randomClass(g.rng)
 	op := fmt.Sprintf("publish name=%s ans=%s", t.name, g.ans.pick(g.rng, cls))
@@ -505,9 +515,10 @@ func (g *gen) randomPublish() {
 	g.add(op)
 	if t.simple {
 		t.simple = false
-		if cls != "accepted" && cls != "mempool" {
-			t.gone = true
-		}
+	}
+	if !t.mined {
+		// recorded (again) or forgotten, exactly as the answer class says
+		t.gone = cls != "accepted" && cls != "mempool"
 	}
 }
 
